@@ -184,6 +184,79 @@ func c05(c *Ctx) {
 		ec.Check = boolCheck(want)
 	}
 
+	// pairs stored at different scales: to compare them one coefficient has to be written at the other's
+	// exponent, and that rescaled coefficient is 17..21 digits long — on either side of 2^63 and 2^64, where
+	// a machine-word shortcut would wrap.  Leading digits from a list around those limits, every shift.
+	{
+		r := c.Rng
+		leads := []string{"1", "4", "9", "92", "9223372036854775807", "9223372036854775808", "93", "95", "99", "18", "18446744073709551615", "18446744073709551616", "19", "5"}
+		digits := func(n int) string {
+			var sb strings.Builder
+			for i := 0; i < n; i++ {
+				sb.WriteByte(byte('0' + r.Intn(10)))
+			}
+			return sb.String()
+		}
+		nsc := c.N(3000, 60000)
+		for it := 0; it < nsc; it++ {
+			total := 17 + r.Intn(5)
+			shift := 1 + r.Intn(total-1)
+			L := total - shift
+			ld := leads[r.Intn(len(leads))]
+			cas := ld
+			if len(cas) > L {
+				cas = cas[:L]
+			} else if r.Intn(2) == 0 {
+				cas += strings.Repeat("0", L-len(cas))
+			} else {
+				cas += digits(L - len(cas))
+			}
+			ca, _ := new(big.Int).SetString(cas, 10)
+			if ca.Sign() == 0 {
+				ca.SetInt64(1)
+			}
+			// b = cb * 10^-shift relative to a: near a (so that the answer is decided by the low digits) or anywhere
+			scaled := new(big.Int).Mul(ca, new(big.Int).Exp(big.NewInt(10), big.NewInt(int64(shift)), nil))
+			var cb *big.Int
+			switch r.Intn(4) {
+			case 0:
+				cb = new(big.Int).Add(scaled, big.NewInt(int64(r.Intn(3)-1)))
+			case 1:
+				cb, _ = new(big.Int).SetString("1"+digits(shift), 10) // about 1, written with `shift` decimals
+			default:
+				cb, _ = new(big.Int).SetString(digits(1+r.Intn(19)), 10)
+			}
+			if r.Intn(2) == 0 {
+				ca.Neg(ca)
+			}
+			if r.Intn(4) == 0 {
+				cb.Neg(cb)
+			}
+			base := int64(r.Intn(5) - 2)
+			da := &D{Tag: "d", Coef: ca, Exp: base}
+			db := &D{Tag: "d", Coef: cb, Exp: base - int64(shift)}
+			va := new(big.Rat).SetInt(ca)
+			vb := new(big.Rat).SetInt(cb)
+			vb.Quo(vb, new(big.Rat).SetInt(new(big.Int).Exp(big.NewInt(10), big.NewInt(int64(shift)), nil)))
+			cmp := va.Cmp(vb) // the common factor 10^base does not change the order
+			doc := h.Obj("x", da, "y", db)
+			for _, fn := range fns {
+				ec := c.AddEval("$.x."+fn+"($.y)", doc, "scaled-pairs", false, true)
+				ec.Check = boolCheck(wantOf(fn, cmp))
+				ec = c.AddEval("$.y."+fn+"($.x)", doc, "scaled-pairs", false, true)
+				ec.Check = boolCheck(wantOf(fn, -cmp))
+			}
+			// the same pair with the argument written as a literal (its stored scale is then that of the text)
+			if base == 0 && len(new(big.Int).Abs(cb).String()) <= 15 { // a literal carries up to 15 significant digits
+				lit := decText(cb, shift)
+				for _, fn := range fns {
+					ec := c.AddEval("$.x."+fn+"("+lit+")", doc, "scaled-pairs:literal", false, true)
+					ec.Check = boolCheck(wantOf(fn, cmp))
+				}
+			}
+		}
+	}
+
 	// strings that are not numerals, booleans, cross-kind
 	// ... including near-numerals: a numeral with a blank before or after it, with a separator, a second
 	// sign, a second point, a dangling exponent — none of them is a number
@@ -233,4 +306,18 @@ func c05(c *Ctx) {
 			ec.Check = boolCheck(false)
 		}
 	}
+}
+
+// decText writes coef * 10^-scale as a plain decimal numeral with exactly `scale` decimals
+func decText(coef *big.Int, scale int) string {
+	neg := coef.Sign() < 0
+	t := new(big.Int).Abs(coef).String()
+	for len(t) <= scale {
+		t = "0" + t
+	}
+	t = t[:len(t)-scale] + "." + t[len(t)-scale:]
+	if neg {
+		t = "-" + t
+	}
+	return t
 }
